@@ -50,12 +50,22 @@ class C09(Property):
              ("antismash/common/secmet/features/cds_feature.py", "CDSFeature.from_biopython"),
              ("antismash/common/secmet/features/feature.py", "Feature.to_biopython"),
              ("antismash/common/secmet/features/prepeptide.py", "Prepeptide.to_biopython"),
+             ("antismash/common/secmet/features/prepeptide.py", "Prepeptide.from_biopython"),
+             ("antismash/common/secmet/features/prepeptide.py", "Prepeptide.to_json"),
+             ("antismash/common/secmet/features/prepeptide.py", "Prepeptide.from_json"),
+             ("antismash/common/secmet/features/prepeptide.py", "_combine_sections"),
+             (LOC_PY, "build_location_from_others"),
+             (LOC_PY, "location_from_string"),
              ("antismash/modules/tta/tta.py", "TTAResults.new_feature_from_other"),
              ("antismash/modules/tta/tta.py", "TTAResults.new_feature_from_location"),
              ("antismash/modules/tta/tta.py", "TTAResults.to_json"),
              ("antismash/modules/tta/tta.py", "TTAResults.from_json"),
              ("antismash/modules/tta/tta.py", "detect"),
              ("antismash/common/hmmer.py", "build_hits"),
+             ("antismash/common/hmmer.py", "HmmerHit.__post_init__"),
+             ("antismash/common/hmmer.py", "HmmerResults.to_json"),
+             ("antismash/common/hmmer.py", "HmmerResults.from_json"),
+             ("antismash/common/hmmer.py", "HmmerResults.add_to_record"),
              ("antismash/detection/nrps_pks_domains/domain_identification.py", "generate_domain_features"),
              ("antismash/detection/nrps_pks_domains/domain_identification.py", "generate_motif_features"),
              ("antismash/common/secmet/record.py", "Record.get_aa_translation_from_location")]
@@ -63,15 +73,21 @@ class C09(Property):
             "bases, both strands, strand 0/None rarely, shuffled exon order rarely) laid out in transcription order on a "
             "ring and cut at a random origin (so ~35% span the origin, exons themselves may be split by it) x protein "
             "ranges [s,e) biased to exon borders and to the invalid edges (s=-1, s>=e, e=total+1) x nucleotide offsets x "
-            "codon_start 0..4 with undo x leader/tail lengths x TTA codon offsets; a random DNA string per case; "
+            "codon_start 0..4 with undo (int and text forms) x leader/tail lengths (positioned, and written out + re-read via "
+            "Prepeptide.from_biopython + positioned again) x TTA codon offsets x partial genes (fuzzy </> on any part edge, "
+            "ends beyond the product) x pfam/motif/domain feature creation on a real record; a random DNA string per case; "
             "thorough/deep: every gene with <=3 exons on a 1-grid of total length <=9 (+ all cuts of a ring of 12) x all "
             "ranges; non-trivial = multi-exon or origin-spanning gene with a valid range; distinct by canonical input")
     TRUSTED = ["Biopython: SimpleLocation/CompoundLocation.extract concatenates parts in list order and reverse-complements "
                "reverse parts (compared on every case with the positions `bases` lists), Seq.translate, len(), FeatureLocation "
                "constructor rejecting end < start",
-               "fuzzy positions (<5, >9), mixed-strand compounds and string-valued codon_start are not generated",
-               "convert_protein_position_to_dna on compound locations is modelled and compared but proved only for simple "
-               "locations (after fix D8 it is no longer used for compound locations)"]
+               "mixed-strand compounds, non-ASCII digits / the empty string as codon_start are not generated; the fuzziness "
+               "of the edges of returned locations is not compared (coordinates are)",
+               "convert_protein_position_to_dna on compound locations is proved for the standard exon order of either "
+               "strand; for other orders (origin-spanning, overlapping exons) it is modelled and compared only (since fix D8 "
+               "it is no longer used for compound locations)",
+               "Prepeptide.from_biopython on the unrepaired tree: part structure of the rebuilt location is not compared "
+               "(bases and strand are; the structure is KF-C10-reverse-prepeptide-location)"]
 
     # ------------------------------------------------------------------ generators
     @staticmethod
@@ -197,6 +213,22 @@ class C09(Property):
             for _ in range(3):
                 s, e = self.rand_range(rng, loc, 3)
                 yield dict(base, kind="sub", s=s, e=e)
+            if loc["parts"][0][2] in (1, -1) and rng.random() < 0.25:
+                # a partial gene: mostly the 3' end is open (the case the code truncates for), sometimes other ends
+                n_parts = len(loc["parts"])
+                fz = [[False, False] for _ in range(n_parts)]
+                rev = loc["parts"][0][2] == -1
+                r = rng.random()
+                if r < 0.6:
+                    fz[n_parts - 1][0 if rev else 1] = True        # 3' end of the last exon
+                elif r < 0.8:
+                    fz[0][1 if rev else 0] = True                  # 5' end of the first exon
+                else:
+                    fz[rng.randrange(n_parts)][rng.randrange(2)] = True
+                total_aa = self.total_len(loc) // 3
+                s = rng.choice([0, max(total_aa - 1, 0), total_aa // 2, total_aa, rng.randrange(0, total_aa + 1)])
+                e = rng.choice([total_aa, total_aa + 1, total_aa + 1, total_aa + 2, total_aa + 7, 0, s + 1])
+                yield dict(base, kind="sub", s=s, e=e, fz=fz)
             s, e = self.rand_range(rng, loc, 3)
             yield dict(base, kind="convert", s=s, e=e)
             s, e = self.rand_range(rng, loc, 1)
@@ -206,13 +238,23 @@ class C09(Property):
                              + [3 * (b // 3) for b in self.borders(loc)])
             yield dict(base, kind="tta", off=off)
             yield dict(base, kind="frameshift", cs=rng.choice([1, 2, 2, 3, 3, 0, 4]), undo=rng.random() < 0.3)
+            if rng.random() < 0.3:   # the qualifier as GenBank text: only its first character counts
+                yield dict(base, kind="frameshift", cs=rng.choice([1, 2, 3]), undo=rng.random() < 0.3,
+                           text=rng.choice(["1", "2", "3", "2 ", "3x", "21", "10", "0", "4", "9", "x", "-1", " 2", "2.0"]))
             aa = total // 3
             ld = rng.choice([0, 0, 1, 2, aa // 2, aa - 1, aa] + [b // 3 for b in self.borders(loc)])
             tl = rng.choice([0, 0, 1, 2, aa - ld - 1, aa - ld, max(aa - ld - 2, 0)])
             yield dict(base, kind="prepeptide", leader=max(ld, 0), tail=max(tl, 0))
+            # written out and re-read (results reuse / GenBank): mostly valid splits, sections ending on exon borders
+            if aa >= 1:
+                ld2 = rng.choice([0, 1, aa // 3, aa // 2] + [b // 3 for b in self.borders(loc)[:-1]])
+                ld2 = min(max(ld2, 0), aa - 1)
+                tl2 = rng.choice([0, 1, (aa - ld2) // 2, aa - ld2 - 1] + [aa - b // 3 for b in self.borders(loc)[:-1]])
+                tl2 = min(max(tl2, 0), aa - ld2 - 1) if rng.random() < 0.95 else aa - ld2
+                yield dict(base, kind="prepeptide_rt", leader=ld2, tail=tl2)
             if rng.random() < 0.35 and loc["parts"][0][2] in (1, -1):
                 s, e = self.rand_range(rng, loc, 3)
-                yield dict(base, kind=rng.choice(["motif", "domain"]), s=s, e=e, dna=self.without_stops(loc, dna))
+                yield dict(base, kind=rng.choice(["motif", "domain", "pfam"]), s=s, e=e, dna=self.without_stops(loc, dna))
             overlapping = any(a[0] < b[1] and b[0] < a[1] for a, b in itertools.combinations(loc["parts"], 2))
             if rng.random() < (0.5 if overlapping else 0.08) and loc["parts"][0][2] in (1, -1):
                 # whole-module run; codons are planted at random residues and on the exon junctions
@@ -278,6 +320,9 @@ class C09(Property):
                         for tl in range(0, aa + 1 - ld):
                             total_cases += 1
                             yield dict(base, kind="prepeptide", leader=ld, tail=tl)
+                            if ld + tl < aa:
+                                total_cases += 1
+                                yield dict(base, kind="prepeptide_rt", leader=ld, tail=tl)
                     if aa:
                         total_cases += 1
                         yield dict(base, kind="convert", s=rng.randrange(0, aa), e=aa)
@@ -291,7 +336,7 @@ class C09(Property):
         from antismash.common.secmet import locations as L
         kind = case["kind"]
         dna = case["dna"]
-        location = common.make_location(case["loc"])
+        location = self.make_fuzzy(case["loc"], case["fz"]) if case.get("fz") else common.make_location(case["loc"])
         seq = Seq(dna)
         gene_extract = str(location.extract(seq))
         out: Dict[str, Any] = {"gene_extract": gene_extract}
@@ -313,6 +358,12 @@ class C09(Property):
                 out["pair"] = [int(static[0]), int(static[1])]
                 out["method_same"] = tuple(static) == tuple(dynamic)
             elif kind == "frameshift":
+                if "text" in case:
+                    try:
+                        out["text_loc"] = common.location_json(
+                            L.frameshift_location_by_qualifier(location, case["text"], undo=case["undo"]))
+                    except Exception as exc:  # pylint: disable=broad-except
+                        out["text_err"] = _err(exc)["err"]
                 if case["undo"]:
                     res = L.frameshift_location_by_qualifier(location, case["cs"], undo=True)
                 else:
@@ -358,6 +409,8 @@ class C09(Property):
                 if case["tail"]:
                     out["tail"] = describe(feats.pop(0).location)
                 out["extra"] = len(feats)
+            elif kind == "prepeptide_rt":
+                out.update(self._run_prepeptide_rt(case, location, describe))
             elif kind == "tta":
                 from antismash.modules.tta.tta import TTAResults
                 results = TTAResults("rec", 1.0, 0.5)
@@ -366,12 +419,49 @@ class C09(Property):
                 out["json_rt"] = self._tta_json_roundtrip(results)
             elif kind in ("motif", "domain"):
                 out.update(self._run_caller(case, location, seq, gene_extract))
+            elif kind == "pfam":
+                out.update(self._run_pfam(case, location, seq, gene_extract))
             elif kind == "tta_detect":
                 out.update(self._run_tta_detect(case, location))
             else:
                 raise ValueError(f"unknown kind {kind}")
         except Exception as exc:  # pylint: disable=broad-except
             out.update(_err(exc))
+        return out
+
+    @staticmethod
+    def make_fuzzy(loc: Dict[str, Any], fz: List[List[bool]]) -> Any:
+        """a partial gene: per part [start is `<`, end is `>`] (as NCBI writes genes cut by a contig edge)"""
+        from Bio.SeqFeature import AfterPosition, BeforePosition
+        from antismash.common.secmet.locations import CompoundLocation, FeatureLocation
+        parts = [FeatureLocation(BeforePosition(lo) if before else lo, AfterPosition(hi) if after else hi, strand)
+                 for (lo, hi, strand), (before, after) in zip(loc["parts"], fz)]
+        return CompoundLocation(parts) if loc["c"] else parts[0]
+
+    @staticmethod
+    def _run_prepeptide_rt(case: Dict[str, Any], location: Any, describe: Any) -> Dict[str, Any]:
+        """Prepeptide → to_biopython → Prepeptide.from_biopython(core feature) → to_biopython again
+           (what happens when results are reused or a GenBank output is read back), plus the JSON form"""
+        import json as _json
+        from antismash.common.secmet.features import prepeptide as pmod
+        out: Dict[str, Any] = {"repaired": hasattr(pmod, "_combine_sections")}
+        pre = pmod.Prepeptide(location, "lanthipeptide", "C", "locus", "tool", peptide_subclass="Class I",
+                              score=1.5, leader="L" * case["leader"], tail="T" * case["tail"])
+        first = list(pre.to_biopython())
+        core = [f for f in first if f.qualifiers["prepeptide"] == ["core"]][0]
+        rebuilt = pmod.Prepeptide.from_biopython(core)
+        out["rebuilt"] = common.location_json(rebuilt.location)
+        out["sequences_kept"] = (rebuilt.leader, rebuilt.core, rebuilt.tail) == (pre.leader, pre.core, pre.tail)
+        second = list(rebuilt.to_biopython())
+        if case["leader"]:
+            out["leader"] = describe(second.pop(0).location)
+        out["core"] = describe(second.pop(0).location)
+        if case["tail"]:
+            out["tail"] = describe(second.pop(0).location)
+        out["extra"] = len(second)
+        out["rebuilt_desc"] = describe(rebuilt.location)
+        again = pmod.Prepeptide.from_json(_json.loads(_json.dumps(pre.to_json())))
+        out["json_same"] = common.location_json(again.location) == case["loc"]
         return out
 
     @staticmethod
@@ -415,6 +505,39 @@ class C09(Property):
                 "translation": str(feat.location.extract(seq).translate()),
                 "feature_translation": feat.translation,
                 "protein": [int(feat.protein_location.start), int(feat.protein_location.end)]}
+
+    @staticmethod
+    def _run_pfam(case: Dict[str, Any], location: Any, seq: Any, gene_extract: str) -> Dict[str, Any]:
+        """the generic hmmer path: build_hits (location → text) → HmmerResults JSON → add_to_record (text →
+           location) → PFAMDomain in the record"""
+        import json as _json
+        from types import SimpleNamespace
+        from Bio.Seq import Seq
+        from antismash.common import hmmer, pfamdb
+        from antismash.common.secmet.test.helpers import DummyCDS, DummyRecord
+        database = "/db/pfam/31.0/Pfam-A.hmm"
+        pfamdb.KNOWN_MAPPINGS[database] = {"dom": "PF00001.21"}
+        usable = gene_extract[:len(gene_extract) - len(gene_extract) % 3]
+        translation = str(Seq(usable).translate()) or "X"
+        parts = case["loc"]["parts"]
+        rev = parts[0][2] == -1
+        spanning = any((a[0] < b[0]) if rev else (a[0] > b[0]) for a, b in zip(parts, parts[1:]))
+        try:
+            record = DummyRecord(seq=str(seq), circular=spanning)
+            record.add_cds_feature(DummyCDS(location=location, locus_tag="gene", translation=translation))
+        except Exception as exc:  # pylint: disable=broad-except
+            return {"skipped": f"record set-up refused: {str(exc)[:80]}"}
+        hsp = SimpleNamespace(bitscore=50.0, evalue=1e-20, query_id="gene", query_start=case["s"],
+                              query_end=case["e"], hit_id="dom", hit_description="a domain")
+        hits = hmmer.build_hits(record, [SimpleNamespace(id="dom", hsps=[hsp])], 10.0, 1e-5, database)
+        results = hmmer.HmmerResults(record.id, 1e-5, 10.0, database, "tool", hits)
+        again = hmmer.HmmerResults.from_json(_json.loads(_json.dumps(results.to_json())), record)
+        again.add_to_record(record)
+        dom = record.get_pfam_domains()[0]
+        return {"loc": common.location_json(dom.location), "extract": str(dom.location.extract(seq)),
+                "translation": str(dom.location.extract(seq).translate()),
+                "feature_translation": dom.translation, "record_translation_ok": True,
+                "protein": [int(dom.protein_location.start), int(dom.protein_location.end)]}
 
     @staticmethod
     def _run_tta_detect(case: Dict[str, Any], location: Any) -> Dict[str, Any]:
@@ -468,16 +591,25 @@ class C09(Property):
     def driver_line(self, case: Dict[str, Any], obs: Dict[str, Any]) -> Optional[Dict[str, Any]]:
         kind = case["kind"]
         line: Dict[str, Any] = {"loc": case["loc"]}
-        if kind in ("sub", "motif", "domain"):
+        if kind in ("sub", "motif", "domain", "pfam"):
             line.update(kind="sub", s=case["s"], e=case["e"], impl=obs.get("loc"), feature=kind != "sub")
+            if case.get("fz"):
+                line["fz"] = case["fz"]
         elif kind == "offsets":
             line.update(kind="offsets", s=case["s"], e=case["e"], impl=obs.get("loc"))
         elif kind == "convert":
             line.update(kind="convert", s=case["s"], e=case["e"])
         elif kind == "frameshift":
             line.update(kind="frameshift", cs=case["cs"], undo=case["undo"], impl=obs.get("loc"))
+            if "text" in case:
+                line["text"] = case["text"]
         elif kind == "prepeptide":
             line.update(kind="prepeptide", leader=case["leader"], tail=case["tail"],
+                        impl_leader=(obs.get("leader") or {}).get("loc"), impl_core=(obs.get("core") or {}).get("loc"),
+                        impl_tail=(obs.get("tail") or {}).get("loc"))
+        elif kind == "prepeptide_rt":
+            line.update(kind="prepeptide_rt", leader=case["leader"], tail=case["tail"],
+                        repaired=bool(obs.get("repaired")), impl_rebuilt=obs.get("rebuilt"),
                         impl_leader=(obs.get("leader") or {}).get("loc"), impl_core=(obs.get("core") or {}).get("loc"),
                         impl_tail=(obs.get("tail") or {}).get("loc"))
         elif kind == "tta":
@@ -506,6 +638,9 @@ class C09(Property):
         if not link_ok:
             return Judgement(False, True, in_scope=scope, tags=tuple(tags),
                              detail="Biopython extract disagrees with the transcription-order reading")
+        if kind == "pfam" and "skipped" in obs:
+            tags.append("pfam-skipped")
+            return Judgement(True, True, in_scope=scope, tags=tuple(tags))
         if kind == "tta_detect":
             if "skipped" in obs:
                 tags.append("detect-skipped")
@@ -530,18 +665,20 @@ class C09(Property):
             return flag is True and ob["extract"] == transcribed(loc, case["dna"], positions)
 
         # ---- correspondence (implementation == model) and spec, per kind
-        if kind in ("sub", "offsets", "tta", "motif", "domain"):
+        if kind in ("sub", "offsets", "tta", "motif", "domain", "pfam"):
             m = self._model_obs(model)
             corr = (impl_err == m) if impl_err is not None else (obs["loc"] == m)
-            if guard and drv.get("unrepresentable") and kind in ("tta", "motif", "domain"):
+            if guard and drv.get("unrepresentable") and kind in ("tta", "motif", "domain", "pfam"):
                 # exons of the sub-location share an end coordinate: no secmet Feature can hold it, so no
                 # annotation is positioned at all (refused with ValueError)
                 spec_ok = impl_err == "value-error"
                 tags.append("unrepresentable-refused")
             elif guard:
                 spec_ok = impl_err is None and covers_ok(spec["covers"], obs, spec["slice"])
-                if spec_ok and kind in ("sub", "motif", "domain"):
-                    s, e = case["s"], case["e"]
+                if spec_ok and kind in ("sub", "motif", "domain", "pfam"):
+                    s, e = case["s"], drv.get("eff_e", case["e"])     # partial genes: end truncated to the product
+                    if drv.get("truncated"):
+                        tags.append("end-truncated")
                     from Bio.Seq import Seq
                     usable = obs["gene_extract"][:len(obs["gene_extract"]) // 3 * 3]
                     whole = str(Seq(usable).translate())
@@ -551,17 +688,35 @@ class C09(Property):
                             and obs["record_translation_ok"]
             else:
                 spec_ok = impl_err is not None          # ranges outside the gene are refused
-                if kind in ("motif", "domain") and impl_err is None:
+                if kind in ("motif", "domain", "pfam") and impl_err is None:
                     spec_ok = False
         elif kind == "convert":
             m = self._model_obs(model)
             corr = (impl_err == m) if impl_err is not None else (obs["pair"] == m and obs["method_same"])
             spec_ok = True
-            if spec["simple"]:
-                spec_ok = (impl_err is None and obs["pair"] == spec["minmax"]) if guard else impl_err is not None
+            if spec["standard"] and scope:
+                # theorems convert_simple_location / convert_compound_{forward,reverse}_partial
+                spec_ok = (impl_err is None and obs["pair"] == spec["expected"] == spec["minmax"]) if guard \
+                    else impl_err is not None
+                tags.append("convert-standard-order")
         elif kind == "frameshift":
             m = self._model_obs(model)
             corr = (impl_err == m) if impl_err is not None else (obs["loc"] == m)
+            if "text" in case:
+                mt = drv["model_text"]
+                same = (obs.get("text_err") == mt.get("err")) if "text_err" in obs else obs.get("text_loc") == mt.get("ok")
+                corr = corr and same
+                tags.append("text-" + ("refused" if "err" in mt else "ok"))
+                first = case["text"][:1]
+                if first in ("1", "2", "3"):
+                    # the text form means the same as its first digit
+                    ok_text = ("text_loc" in obs) or obs.get("text_err") in ("value-error", "assertion")
+                else:
+                    ok_text = obs.get("text_err") == "value-error"
+                if not ok_text:
+                    detail = f"codon_start text {case['text']!r} handled as {obs.get('text_loc') or obs.get('text_err')}"
+            else:
+                ok_text = True
             if guard:
                 spec_ok = impl_err is None and spec["shifted"] is True and obs["text_same"]
                 back = drv["back"] or {}
@@ -580,6 +735,7 @@ class C09(Property):
                         tags.append("undo-refused")
             else:
                 spec_ok = impl_err is not None
+            spec_ok = spec_ok and ok_text
         elif kind == "prepeptide":
             if impl_err is not None:
                 corr = impl_err == model.get("err")
@@ -599,6 +755,53 @@ class C09(Property):
                     spec_ok = joined == obs["gene_extract"][:len(obs["gene_extract"]) // 3 * 3]
             else:
                 spec_ok = impl_err is not None
+        elif kind == "prepeptide_rt":
+            known = None
+            sound = bool(drv["sound"]) or bool(obs.get("repaired"))
+            tags.append("repaired-tree" if obs.get("repaired") else "unrepaired-tree")
+            if impl_err is not None:
+                corr = impl_err == model.get("err")
+                spec_ok = not guard
+                if guard and drv["unrepresentable"] and impl_err == "value-error":
+                    # the rebuilt location has two exons ending at the same coordinate: no Feature can hold it
+                    spec_ok = True
+                    tags.append("unrepresentable-refused")
+            else:
+                mo, m2 = model.get("ok"), (drv["model2"] or {}).get("ok")
+                if obs["repaired"]:
+                    corr = mo is not None and obs["rebuilt"] == mo      # exact part structure with D107
+                else:                                                   # unrepaired: part structure is C10's business
+                    corr = mo is not None and self.py_bases(obs["rebuilt"]) == drv["model_bases"] \
+                        and {p[2] for p in obs["rebuilt"]["parts"]} == {p[2] for p in mo["parts"]}
+                if corr:
+                    corr = m2 is not None and obs["extra"] == 0 and all(
+                        (self.py_bases(obs[k]["loc"]) if k in obs else None)
+                        == (self.py_bases(m2[k]) if m2[k] is not None else None) for k in ("leader", "core", "tail"))
+                sl = spec["slices"]
+                want = transcribed(loc, case["dna"], spec["expected"])
+                spec_ok = guard and spec["rebuilt"] is True and obs["rebuilt_desc"]["extract"] == want \
+                    and obs["sequences_kept"] and obs["json_same"]
+                if not spec_ok:
+                    detail = (f"prepeptide at {loc['parts']} (leader {case['leader']}, tail {case['tail']}) comes back from "
+                              f"to_biopython -> from_biopython at {obs['rebuilt']['parts']}: not the gene's coding bases")
+                for key, idx in (("leader", 0), ("core", 1), ("tail", 2)):
+                    if spec_ok and (key == "core" or case[key]):
+                        spec_ok = spec[key] is True and key in obs \
+                            and obs[key]["extract"] == transcribed(loc, case["dna"], sl[idx])
+                        if not spec_ok:
+                            detail = (f"after to_biopython -> from_biopython the {key} is placed at "
+                                      f"{(obs.get(key) or {}).get('loc')}, which is not bases {sl[idx][:3]}.. of the gene")
+                if not spec_ok and not sound:
+                    known = "KF-C09-prepeptide-false-merge"
+            if not scope:
+                spec_ok = True
+            if not corr and not detail:
+                detail = f"model {model} / {drv['model2']} vs implementation {obs}"
+            nontrivial = guard and scope and impl_err is None and (multi or drv["bridges"]) \
+                and bool(case["leader"] or case["tail"])
+            tags.append("sound" if sound else "false-merge-class")
+            return Judgement(corr, spec_ok, in_scope=scope and sound, known=known, nontrivial=nontrivial,
+                             tags=tuple(tags), detail=detail)
         else:
             return Judgement(False, True, detail=f"unknown kind {kind}")
         if kind == "tta" and impl_err is None and obs.get("json_rt") is not True:
@@ -611,7 +814,8 @@ class C09(Property):
         if not corr and not detail:
             detail = f"model {model} vs implementation {obs}"
         nontrivial = guard and scope and impl_err is None and (multi or drv["bridges"])
-        return Judgement(corr, spec_ok, in_scope=scope, nontrivial=nontrivial, tags=tuple(tags), detail=detail)
+        proved = scope and (kind != "convert" or bool(spec["standard"]))   # convert_*: standard exon order only
+        return Judgement(corr, spec_ok, in_scope=proved, nontrivial=nontrivial, tags=tuple(tags), detail=detail)
 
     def shrink(self, case: Dict[str, Any]) -> Iterator[Dict[str, Any]]:
         loc = case["loc"]
